@@ -23,18 +23,36 @@ CLAIMED = {
     "C08": (SIM + "seeded concurrent histories of all write kinds with faults and crashes; oracle = one log per acknowledged write, no unexplained log, independent replay of the stored log payloads equals the stored state, log ids follow commit order where the store serialises insertion",
             "Seeded exploration; the journal is compared with the acknowledged writes and replayed by an independent replayer that knows only the payload shapes.",
             TRUSTED + "Id-versus-commit order is only checked for HASH_LOGS=SYNC ledgers (elsewhere it is a property of PostgreSQL sequences).", "9/C08"),
+    "C11": (SIM + "seeded source histories (all write kinds, adversarial strings, big amounts, back-dated transactions, reverts, schemas) exported through the real handler and imported into a fresh ledger with the body arriving in scheduler-controlled chunks, crashes and store faults during import, then every write path as first write (single, sequential/atomic/parallel bulk) with or without restart; oracle = copy equals source (logs, hashes, transactions, accounts, metadata, volumes, schemas), post-import writes succeed and continue the id sequences",
+            "Seeded exploration of export/import round trips through the real API; the committed state of source and copy is compared table by table.",
+            TRUSTED + "The state tracker's UPDATE/setval statements run through the sim driver with their literals applied; sequences and unique ids are part of the contract (S4, S7, S12, S13).", "9/C11"),
+    "C12": (SIM + "seeded interleavings of Import with concurrent single writes, bulks (atomic, failing first element) and a second import on the same ledger over prior histories (empty, imported prefix, already written), with crashes, faults and client disconnects; commit-sequence oracle = never an imported log after an accepted write, never a client write between imported logs, a rejected import leaves nothing, bounded progress on the ledger lock",
+            "Seeded exploration of schedules of imports and writes; every simulated commit is classified as imported or client write and the exclusivity rules are checked on the commit sequence.",
+            TRUSTED + "The advisory lock table is part of the contract (S9); which lock function, key and connection are used is real code (storage/ledger/store.go).", "9/C12"),
     "C13": (SIM + "seeded schedules of 2-5 concurrent/sequential requests sharing an idempotency key (same and different inputs, every write kind) with ambiguous commits, crashes and disconnects; oracle = at most one committed effect per key, structural answer rules, porcupine linearizability against an exactly-once model",
             "Seeded exploration; callers' answers are checked for linearizability (porcupine) against a model where each key is applied once and business errors reflect the balance at their linearization point.",
             TRUSTED + "The unique index on (ledger, idempotency_key) is part of the contract (S7).", "9/C13"),
     "C15": (SIM + "seeded histories with concurrent reverts of the same transaction (force x atEffectiveDate, v1 and v2, with faults); oracle = exactly one revert transaction per reverted transaction, exact inverse postings, single success answer, conservation",
             "Seeded exploration of concurrent and repeated reverts through the real API.",
             TRUSTED + "The conditional UPDATE ... WHERE reverted_at IS NULL is part of the contract (S5).", "9/C15"),
+    "C25": (SIM + "seeded postings lists (up to 20 postings, repeated accounts, source = destination, world on either side, zero and >2^64 amounts) through v1, v2 and bulk against random starting balances, 1-3 concurrent writers; oracle = refinement against a reference ledger in commit order (accepted => no source below zero on the balances it was committed against; refused => justified by some committed state of its invocation window), recorded postings equal the submitted list",
+            "Seeded exploration with a commit-order refinement oracle against an independent balance model.",
+            TRUSTED + "KNOWN FINDINGS (experimental interpreter runtime only) are listed in known_findings.json.", "9/C25"),
+    "C29": (SIM + "seeded configurations {strict, audit} x {0..3 schema versions, one inserted concurrently} x charts of a small family (fixed/variable segments, patterns, .self, default metadata, fixed branch beside a variable segment) x templates; writes naming existing/missing/no version; oracle = independent chart matcher and enforcement rules written from the documented meaning, answers justified by the schema set visible in the request's window, default metadata recomputed from the committed logs",
+            "Seeded exploration of schema enforcement through the real API with an independent reference for the chart semantics.",
+            TRUSTED + "Schema rows and the default-metadata merge of the account upsert are part of the contract (S6).", "9/C29"),
     "C31": (SIM + "recording listener (real bus listener in half of the runs) with global event sequence numbers; seeded faults incl. commit failures on single writes, first writes of a ledger and concurrent writers; oracle = exactly one event per committed log, after its commit, none otherwise",
             "Seeded exploration; every listener callback is ordered against the simulated commit that made its write durable.",
             TRUSTED, "9/C31"),
     "C32": (SIM + "seeded bulks (all element kinds, planted failing elements) x atomic/continueOnFailure/parallel x json/json-stream through the real handlers and Bulker, pool workers scheduled by the simulator, with faults; oracle = one result per element, result i describes element i and equals the standalone answer, atomic all-or-nothing, ordered short-circuit",
             "Seeded exploration of bulk requests through the real handlers; effects are read from the committed logs.",
             TRUSTED, "9/C32"),
+    "C33": (SIM + "the real replication Manager, PipelineHandler, DriverFacade, batching factory and registry over a simulated system store and a recording terminal exporter, with concurrent log production, exporter errors (whole batch, per item), storage errors, pipeline stop/start/reset sequences and worker crash + restart; schedules over ListLogs / Accept / StorePipelineState and timer firings on the simulated clock; oracle (every step) = ids increase within a call, no gap below an acknowledged batch, persisted last id covers only acknowledged logs (since the last reset); (bounded liveness once faults stop) every committed log acknowledged within a budget of configured retry periods",
+            "Seeded exploration of replication under faults with safety invariants at every step and bounded liveness after faults stop.",
+            TRUSTED + "gRPC transport and the real exporter drivers are not run. Residual nondeterminism: two timers firing at the same simulated instant are ordered by the Go runtime (DESIGN.md 3.4). KNOWN FINDINGS are listed in known_findings.json.", "9/C33"),
+    "C38": (SIM + "SCOPE-LIMITED to transport faults on otherwise valid requests: body cut (unexpected EOF), cleanly truncated, read error, client disconnect, duplicated request, on every write route and on the streaming routes (json-stream and script-stream bulk, log import); oracle = never a 5xx, a recovered panic or a process crash for a client-side fault, a 4xx leaves nothing, streamed bodies apply only complete elements, no lock or session left behind",
+            "Seeded exploration of transport faults through the real router; includes a process-crash oracle (a panic in a goroutine of the service kills the worker process and is reported with the deterministic run that caused it).",
+            TRUSTED + "NOT DECIDED: grammar-aware type confusion of every JSON field, bad cursors/filters/dates on read routes (input fuzzing with no schedule or fault in it).", "9/C38"),
 }
 
 PENDING = {}
